@@ -22,6 +22,7 @@ from sim.kernel import Sim, make_policy, StepCap, Deadlock
 from sim.executors import SimPoolBase, SimThreadPool, SimProcessPool
 from sim.runner import new_result, scratch_root
 from sim.seams import patched, NoGC, import_typhon, fresh_dir
+from sim.seams import deterministic_tempnames
 from sim import digest_of
 from props import naming
 
@@ -186,6 +187,7 @@ def gen_workload(tape):
     # transparent decompression switched off (only where nothing is compressed)
     w["decompress_off"] = kind != "pickle_z" and tape.flag("decompress_off", 1, 4)
     w["max_workers"] = tape.pick([None, 1, 2, 3], "workers")
+    w["odd_base"] = tape.flag("odd_base", 1, 4)      # '//' and '/./' in the templates
     ops = []
     n = tape.count(3, 12, "nops", (5, 6))
     serial = 0
@@ -258,6 +260,10 @@ class MSet:
     def __init__(self, idx, tmpl_i, ext, kind, root, subdir, w):
         self.idx, self.tmpl_i, self.ext, self.kind = idx, tmpl_i, ext, kind
         self.template = f"{root}/data/{subdir}/" + TEMPLATES[tmpl_i] + ext
+        # the same template as a user may spell it (doubled separator, /./):
+        # names are compared in normalised form
+        self.spelled = f"{root}/data//{subdir}/./" + TEMPLATES[tmpl_i] + ext \
+            if w.get("odd_base") else self.template
         self.tcov = timedelta(seconds=w["time_coverage"]) if w["time_coverage"] else None
         self.obj = None
         self.subdir = subdir
@@ -479,7 +485,7 @@ class Run:
             kw["worker_type"] = w["worker_type"]
         if w.get("decompress_off") and _suffix_class(ext) == "plain":
             kw["decompress"] = False
-        ms.obj = FileSet(ms.template, name=f"S{ms.idx}", time_coverage=ms.tcov,
+        ms.obj = FileSet(ms.spelled, name=f"S{ms.idx}", time_coverage=ms.tcov,
                          max_processes=3, max_threads=2, fs=SimLocalFS(), **kw)
         self.sets.append(ms)
         return ms
@@ -714,6 +720,8 @@ class Run:
                     del self.files[f.path]
                 self.state_changes += 1
             self.compare(kind)
+            if kind == "delete" and chosen:
+                self.ask_for_removed(ms, chosen[o["fs"] % len(chosen)], kind)
             return
         # ---- move / copy ----------------------------------------------------------
         copy = kind == "copy"
@@ -722,7 +730,7 @@ class Run:
             self.sim.probe("convert_in_place")
             conv_arg = converter if convert == "callable" else True
             try:
-                ms.obj.move(ms.template, convert=conv_arg, **kw, **extra)
+                ms.obj.move(ms.spelled, convert=conv_arg, **kw, **extra)
             except Exception as e:  # noqa
                 if not chosen and type(e).__name__ == "NoFilesError":
                     return
@@ -775,7 +783,7 @@ class Run:
             target = target_ms.obj
         else:
             target_ms = None
-            target = dst.template
+            target = dst.spelled
         conv_arg = converter if convert == "callable" else bool(convert)
         faulted = None
         if convert and ms.kind.startswith("pickle") and plan and \
@@ -835,6 +843,8 @@ class Run:
                 if mf.sha is None:
                     mf.sha = _sha(np_)
                 self.check_content(mf, kind)
+        if not copy and plan and not o.get("rewrite_after"):
+            self.ask_for_removed(ms, list(plan.values())[o["ext"] % len(plan)], kind)
         if o.get("rewrite_after") and not copy and plan:
             old = list(plan.values())[o["ext"] % len(plan)]
             if old.path not in self.files:
@@ -858,6 +868,26 @@ class Run:
                 self.compare("rewrite")
                 if old.path in self.files:
                     self.check_content(self.files[old.path], "rewrite")
+
+    def ask_for_removed(self, ms, old, kind):
+        """A file was removed from this fileset through the fileset (delete,
+        move). Asking for exactly its start time must not produce it again."""
+        if old.path in self.files:
+            return
+        self.sim.probe("asked_for_a_removed_file")
+        try:
+            fi = ms.obj.find_closest(old.cov[0])
+        except Exception as e:  # noqa: nothing (left) to find is fine
+            if type(e).__name__ in ("NoFilesError", "ValueError"):
+                return
+            self.V.append(_viol(f"C11/{kind}/find_closest/exception/{type(e).__name__}",
+                                f"{e}"[:300]))
+            return
+        if fi is not None and not os.path.exists(fi.path):
+            self.V.append(_viol(
+                f"C11/{kind}/removed-file-still-answered",
+                f"after {kind}: find_closest({old.cov[0]}) returns "
+                f"{_r(self, fi.path)}, which does not exist"))
 
     def single_file_move(self, i, o):
         """move/copy/convert of a single-file fileset (outside the data tree)."""
@@ -970,6 +1000,7 @@ def _kw(kw):
 
 def run_one(tape, only=None):
     _T["state"].restore()      # each run models a fresh interpreter
+    deterministic_tempnames()
     res = new_result()
     w = gen_workload(tape)
     policy = make_policy(tape)
